@@ -20,8 +20,9 @@
     RandomGen (keys, decoded candidates, acceptance).  Both sides equal
     [{q | valid_b (code_sem fb) q = true}] (C01_sound / C02_complete and
     f1_accept_sound / f1_accept_complete).  [C07_sat_eq_random_frag2]: the same
-    with weighted crossed levels and a crossing weight ([frag2], for designs on
-    which the RandomGen model's enumerator is defined, see Properties/C05.v).
+    with weighted crossed levels, crossing weights, further crossings and
+    implied factors ([frag2]; the right side then reads [cand_seq], the
+    candidate with the implied rows added).
     Missing for the full statement:
     derived factors, preambles and several crossings on the RandomGen side
     (outside frag2), complex windows / Nest / Sequential / LatinSquare on the
@@ -58,7 +59,7 @@ Proof. exact sat_eq_random1_example. Qed.
 (** with weights (fragment [Frag.frag2]) *)
 Theorem C07_sat_eq_random_frag2 :
   forall (fb : flat) (b : backend) (ok : bool) (n' : Z) (final : cnf),
-    in_f1 fb = true -> frag2 fb = true -> enumerates fb -> (0 < T fb)%nat -> fl_errors_fail fb = false ->
+    in_f1 fb = true -> frag2 fb = true -> (0 < T fb)%nat -> fl_errors_fail fb = false ->
     compile fb = COk b -> full_cnf b = (ok, n', final) ->
     forall q : tseq,
       (exists t, sat t final = true /\ onehot fb t q) <->
@@ -68,7 +69,7 @@ Proof. exact sat_eq_random2. Qed.
 Print Assumptions C07_sat_eq_random_frag2.
 
 Example C07_example_weighted :
-  in_f1 ex3_flat = true /\ frag2 ex3_flat = true /\ frag1 ex3_flat = false /\ enumerates ex3_flat /\ (0 < T ex3_flat)%nat /\
+  in_f1 ex3_flat = true /\ frag2 ex3_flat = true /\ frag1 ex3_flat = false /\ (0 < T ex3_flat)%nat /\
   fl_errors_fail ex3_flat = false /\ (exists b, compile ex3_flat = COk b) /\
   length (keys_of ex3_flat) = 96%nat /\ length (accepted_keys ex3_flat) = 32%nat.
 Proof. exact sat_eq_random2_example. Qed.
